@@ -717,6 +717,38 @@ pub fn mutants(base: &ExecDoc, sch: &Sch) -> Vec<(&'static str, String, ExecDoc)
             }),
         );
     }
+    // a fragment the document already spreads (validly) somewhere, spread once more where it cannot apply
+    {
+        let frag_conds: Vec<(String, String)> = base.defs.iter().filter_map(|d| match d {
+            ExecDef::Frag { name, cond, .. } => Some((name.s.clone(), cond.s.clone())),
+            _ => None,
+        }).collect();
+        if !frag_conds.is_empty() {
+            add(
+                "spread.possible",
+                kth(base, |d, k| {
+                    let mut n = 0;
+                    let mut res = None;
+                    for_each_selset(d, sch, &mut |sel, ctx| {
+                        if n == k {
+                            let mine = sch.possible_types(ctx.ty);
+                            if let Some((fname, _)) = frag_conds.iter().find(|(fname, cond)| Some(fname.as_str()) != ctx.in_fragment && !sch.possible_types(cond).is_empty() && !sch.possible_types(cond).iter().any(|x| mine.contains(x))) {
+                                sel.items.push(Sel::Spread { p: p0(), name: nm(fname), dirs: vec![] });
+                                res = Some(format!("existing-fragment-spread-again-at-a-disjoint-site@{}", ctx_tag(ctx)));
+                            } else {
+                                res = Some("skip".into());
+                            }
+                        }
+                        n += 1;
+                    });
+                    res
+                })
+                .into_iter()
+                .filter(|(t, _)| t != "skip")
+                .collect(),
+            );
+        }
+    }
     // impossible named spread: a fragment on a disjoint type spread at each selection set
     for want_kind in [TsKind::Object, TsKind::Interface, TsKind::Union] {
     add(
